@@ -60,11 +60,12 @@ func (p *Prog) lessSites() []lessSite {
 }
 
 type diag struct {
-	p    *Prog
-	a, b types.Object
-	defs map[types.Object]ast.Expr
-	rel  map[string]int // assumed outcome per sort key: -1 first element smaller, 0 equal, +1 greater
-	keys []string       // sort keys met while evaluating (in order of first use)
+	p     *Prog
+	a, b  types.Object
+	defs  map[types.Object]ast.Expr
+	rel   map[string]int // assumed outcome per sort key: -1 first element smaller, 0 equal, +1 greater
+	keys  []string       // sort keys met while evaluating (in order of first use)
+	depth int            // nesting of helper evaluations
 }
 
 // sideOf: which element an expression reads (1 first, 2 second, 3 both, 0 neither), through definitions.
@@ -142,7 +143,11 @@ func (d *diag) callSign(e ast.Expr) (int, bool) {
 		return 0, false
 	}
 	k, ok := diagZeroFuncs[d.p.CalleeName(call)]
-	if !ok || len(call.Args) < 2*k {
+	if !ok {
+		// a three-way helper of the module (compareX(l, r) int): evaluated on its own body
+		return d.helperSign(call)
+	}
+	if len(call.Args) < 2*k {
 		return 0, false
 	}
 	key := d.p.CalleeName(call) + ":"
@@ -369,6 +374,14 @@ func (d *diag) eval(e ast.Expr) int {
 				if r, ok := d.keyRel(x.Args[0], x.Args[1]); ok {
 					return relHolds(token.GTR, r)
 				}
+			}
+		}
+	}
+	if call, isCall := e.(*ast.CallExpr); isCall {
+		// a boolean helper of the comparator's own package, evaluated on its body
+		if callee := d.p.Callee(call); callee != nil && callee.Pkg() != nil && d.p.PkgShort(callee.Pkg().Path()) == "objects" {
+			if v, ok := d.helperBool(call); ok && v != triU {
+				return v
 			}
 		}
 	}
@@ -940,4 +953,208 @@ func rulesC19(c *Ctx) {
 			return false, "Application.sortedRequests changed by " + fw.Kind + " in " + fw.Fn.Name + " instead of insert/remove"
 		})
 	}
+}
+
+// bindHelper prepares the evaluation of a private helper of the comparator: its parameters (and receiver) stand for
+// the argument expressions.  Returns the body and a restore function.
+func (d *diag) bindHelper(call *ast.CallExpr) (*ast.BlockStmt, func(), bool) {
+	callee := d.p.Callee(call)
+	if callee == nil {
+		return nil, nil, false
+	}
+	fn := d.p.FuncOf[callee]
+	if fn == nil || fn.Decl.Body == nil || call.Ellipsis != 0 || d.depth > 3 {
+		return nil, nil, false
+	}
+	saved := map[types.Object]ast.Expr{}
+	had := map[types.Object]bool{}
+	bind := func(id *ast.Ident, arg ast.Expr) {
+		if id == nil || arg == nil || id.Name == "_" {
+			return
+		}
+		o := d.p.ObjOf(id)
+		if o == nil {
+			return
+		}
+		if old, ok := d.defs[o]; ok {
+			saved[o], had[o] = old, true
+		} else {
+			had[o] = false
+		}
+		d.defs[o] = arg
+	}
+	fd := fn.Decl
+	if fd.Recv != nil && len(fd.Recv.List) > 0 && len(fd.Recv.List[0].Names) > 0 {
+		bind(fd.Recv.List[0].Names[0], Recv(call))
+	}
+	i := 0
+	if fd.Type.Params != nil {
+		for _, f := range fd.Type.Params.List {
+			if _, variadic := f.Type.(*ast.Ellipsis); variadic {
+				return nil, nil, false
+			}
+			for _, nm := range f.Names {
+				if i < len(call.Args) {
+					bind(nm, call.Args[i])
+				}
+				i++
+			}
+			if len(f.Names) == 0 {
+				i++
+			}
+		}
+	}
+	d.depth++
+	restore := func() {
+		d.depth--
+		for o, h := range had {
+			if h {
+				d.defs[o] = saved[o]
+			} else {
+				delete(d.defs, o)
+			}
+		}
+	}
+	return fn.Decl.Body, restore, true
+}
+
+// helperBool evaluates a boolean helper of the module on the diagonal.
+func (d *diag) helperBool(call *ast.CallExpr) (int, bool) {
+	sig, ok := d.p.TypeOf(call.Fun).(*types.Signature)
+	if !ok || sig.Results().Len() != 1 {
+		return triU, false
+	}
+	if b, isB := sig.Results().At(0).Type().Underlying().(*types.Basic); !isB || b.Info()&types.IsBoolean == 0 {
+		return triU, false
+	}
+	body, restore, ok := d.bindHelper(call)
+	if !ok {
+		return triU, false
+	}
+	defer restore()
+	var results []int
+	var where []ast.Node
+	if d.run(body.List, &results, &where) {
+		return triU, false // falls off the end
+	}
+	if len(results) == 0 {
+		return triU, false
+	}
+	v := results[0]
+	for _, r := range results[1:] {
+		if r != v {
+			return triU, true
+		}
+	}
+	return v, true
+}
+
+// helperSign evaluates a three-way helper (negative / zero / positive int) of the module: every reachable return
+// must yield the same sign.
+func (d *diag) helperSign(call *ast.CallExpr) (int, bool) {
+	sig, ok := d.p.TypeOf(call.Fun).(*types.Signature)
+	if !ok || sig.Results().Len() != 1 {
+		return 0, false
+	}
+	if b, isB := sig.Results().At(0).Type().Underlying().(*types.Basic); !isB || b.Info()&types.IsInteger == 0 {
+		return 0, false
+	}
+	body, restore, ok := d.bindHelper(call)
+	if !ok {
+		return 0, false
+	}
+	defer restore()
+	signs := map[int]bool{}
+	okAll := true
+	var walk func(list []ast.Stmt) bool // returns whether control can fall through
+	walk = func(list []ast.Stmt) bool {
+		for _, s := range list {
+			switch x := s.(type) {
+			case *ast.AssignStmt:
+				if len(x.Lhs) == len(x.Rhs) {
+					for i, l := range x.Lhs {
+						if id, isID := l.(*ast.Ident); isID {
+							d.defs[d.p.ObjOf(id)] = x.Rhs[i]
+						}
+					}
+				}
+			case *ast.DeclStmt, *ast.ExprStmt, *ast.EmptyStmt:
+			case *ast.ReturnStmt:
+				if len(x.Results) != 1 {
+					okAll = false
+					return false
+				}
+				if v, isC := d.p.ConstInt(x.Results[0]); isC {
+					switch {
+					case v < 0:
+						signs[-1] = true
+					case v > 0:
+						signs[1] = true
+					default:
+						signs[0] = true
+					}
+				} else if r, has := d.callSign(x.Results[0]); has {
+					signs[r] = true
+				} else {
+					okAll = false
+				}
+				return false
+			case *ast.BlockStmt:
+				if !walk(x.List) {
+					return false
+				}
+			case *ast.IfStmt:
+				if x.Init != nil {
+					walk([]ast.Stmt{x.Init})
+				}
+				c := d.eval(x.Cond)
+				fall := false
+				if c != triF {
+					if walk(x.Body.List) {
+						fall = true
+					}
+				}
+				if c != triT {
+					switch e := x.Else.(type) {
+					case nil:
+						fall = true
+					case *ast.BlockStmt:
+						if walk(e.List) {
+							fall = true
+						}
+					case *ast.IfStmt:
+						if walk([]ast.Stmt{e}) {
+							fall = true
+						}
+					}
+				}
+				if !fall {
+					return false
+				}
+			case *ast.SwitchStmt:
+				chain, okc := d.switchAsIf(x)
+				if !okc {
+					okAll = false
+					return false
+				}
+				if chain != nil && !walk([]ast.Stmt{chain}) {
+					return false
+				}
+			default:
+				okAll = false
+				return false
+			}
+		}
+		return true
+	}
+	if walk(body.List) {
+		okAll = false // no return on some path
+	}
+	if !okAll || len(signs) != 1 {
+		return 0, false
+	}
+	for r := range signs {
+		return r, true
+	}
+	return 0, false
 }
